@@ -3,7 +3,6 @@ import SC.Proofs.IdxRune2
 import SC.Proofs.SpecFirstBy
 import SC.Proofs.RLastIndexByte
 import SC.Proofs.RByteLevel
-import SC.Proofs.SrcIndexByte
 /-!
 # C10 — single-character searches find the first/last member of the character's orbit
 -/
@@ -142,15 +141,4 @@ theorem indexByte_is_orbit_search (cfg : A.Cfg) (s : Bytes) (c : UInt8) (hc : c 
 example : S.indexRune [0x78, 0xE2, 0x84, 0xAA] 0x6B = 1 ∧ S.indexRune [0x78, 0xFF] 0xFFFD = 1 ∧
     S.indexByte [0x78, 0xC5, 0xBF] 0x53 = 1 ∧ S.lastIndexByte [0x6B, 0xE2, 0x84, 0xAA, 0x78] 0x4B = 1 ∧
     S.indexByteASCII [0x78, 0xC5, 0xBF, 0x73] 0x53 = 3 := by decide +kernel
-/-- **Source level** (`Gen.Src.str`, the go/ssa form of `strcase.go` regenerated on every run): the program text of `indexByte` — letter
-    dispatch for `K k S s`, the call of the byte kernel, the re-slice `s[:n]`, the choice between the ASCII hit and the start of U+212A /
-    U+017F — returns the algorithm model's `A.indexByte`, for every string shorter than 2^62 bytes and every byte value, **given that**
-    the program text of `indexRuneCase` returns the model's `A.indexRuneCase` (that core is tied by the correspondence run only). -/
-theorem source_indexByte (s : Bytes) (root off : Nat) (c : UInt8) (h : GoSsa.Heap) (hls : s.length < 4611686018427387904)
-    (hCore : ∀ (s' : Bytes) (r : Int), ∃ N, ∀ fuel, N ≤ fuel →
-      GoSsa.run Gen.Src.str false fuel (GoSsa.Frame.entry Gen.Src.str_indexRuneCase [.str s' root off, .int r]) h =
-        .ok [.int (A.indexRuneCase (GoSsa.cfg false) s' r)] h) :
-    GoSsa.Ret Gen.Src.str false Gen.Src.str_indexByte [.str s root off, .int c.toNat] h
-      [.int (A.indexByte (GoSsa.cfg false) s c).1, .int (A.indexByte (GoSsa.cfg false) s c).2] h :=
-  GoSsa.Str.indexByte s root off c h hls hCore
 end C10
